@@ -221,8 +221,16 @@ def run(tier, seed):
             except Exception:
                 canonical = False
             # whatever such an item decodes to, bytes after it are leftover bytes
-            for sfx in (b"\x00", b"\xff\xff"):
+            for sfx in (b"\x00", b"\xff\xff", b"\x00\x00\x00"):
                 run_one(b + sfx, "hostile-cbor-suffix", "reject" if il.startswith("OK") and canonical else None)      # (a truncated item may be completed by the suffix)
+        # extension data announced (ED) but the bytes end with the key item: nothing of the key is "the extensions"
+        if len(item) < 300:
+            hdr_at_ed = hdr_at[:32] + b"\xc1" + hdr_at[33:]
+            try:
+                canonical = cbor2.dumps(cbor2.loads(item)) == item
+            except Exception:
+                canonical = False
+            run_one(hdr_at_ed + item, "hostile-cbor-extensions-announced-but-absent", "reject" if canonical else None)
     # the byte string may arrive as a view into a larger buffer (a window of the attestation object, of a network buffer): the result is that of the bytes it covers
     for i in range(40 if quick else 400):
         b, exp = cborgen.layout(rng)
